@@ -453,7 +453,18 @@ def monotonicity(case, ctx):
     ctx.label(what)
     if what == "scale":
         # a safety margin given as an absolute standard deviation does not scale with the loads
-        lo, hi = assess(p, loads), assess(p, [x * case["f"] for x in loads])
+        lo = assess(p, loads)
+        try:
+            hi = assess(p, [x * case["f"] for x in loads])
+        except RuntimeError as e:
+            if not str(e).startswith("Failed to converge"):
+                raise
+            # the scaled-up sequence is refused by the notch-law solver (scipy's secant iteration gives up, e.g. at
+            # 3.8 R_m with K_p = 1.3): no lifetime is reported, so there is nothing the property could compare.
+            # Convergence of the solvers inside their domain is C06's subject.
+            ctx.tolerate("scaled-up loads refused: notch-law solver did not converge")
+            ctx.label("scaled_run_refused_by_solver")
+            return
         info = "loads %r scaled by %r, params %r" % (loads, case["f"], p)
     elif what == "roughness":
         p1, p2 = dict(p), dict(p)
